@@ -361,6 +361,30 @@ def _sorting_rule(model, rep, els):
                  "Mesh.__post_init__:sort",
                  "the constructor does not sort the cells (np.sort(self.t, "
                  "axis=0) under sort_t) as its first action", pi.lineno)
+    # the library itself never hands out a mesh with sorting switched off
+    # unless that is what the operation is for
+    from ..tags import unsorted_meshes
+    EXPLICIT = {"MeshSimplex.oriented": "an oriented mesh cannot also be "
+                "sorted: the caller asks for the orientation"}
+    sites = unsorted_meshes(model)
+    if not sites:
+        raise AnalysisError("no sort_t=False construction found (MeshTri1."
+                            "_adaptive builds a helper mesh that way)")
+    for fn, call, esc in sites:
+        cons = f"{fn.short()}:sort_t=False"
+        if not esc:
+            rep.ok(R2, cons, "helper mesh with sorting off never leaves the "
+                   "function (or a later replace sets sort_t again)")
+        elif fn.short() in EXPLICIT:
+            rep.ok(R2, cons, "explicit request: " + EXPLICIT[fn.short()])
+        else:
+            rep.fail(R2, fn.path, fn.short(), cons,
+                     "a mesh built with sort_t=False is returned (directly "
+                     "or as the base of the returned mesh): the caller gets "
+                     "a mesh - and every mesh derived from it - with "
+                     "per-cell vertex sorting silently switched off, on "
+                     "which elements with several DOFs per facet are "
+                     "discontinuous", call.lineno)
     # H1 elements with several DOFs per facet on unsorted cell types
     for name, e in sorted(els.items()):
         if e.family != "h1" or e.refdom is None or \
@@ -500,7 +524,13 @@ def run(model: Model, rep, tier: str) -> None:
 
 
 _E = "skfem/element/"
+_TRI = "skfem/mesh/mesh_tri_1.py"
+_RET = ("        return replace(\n            self,\n            "
+        "doflocs=doflocs,\n            t=t,\n            _boundaries=None,")
 MUTANTS = [
+    ("adaptive refinement returns a mesh based on the unsorted helper",
+     (_TRI, _RET, _RET.replace("            self,\n",
+                               "            sorted_mesh,\n")), "C03-R2"),
     ("ElementTriRT1: one function negated",
      (_E + "element_tri/element_tri_rt1.py",
       "            phi = np.array([x - 1., y])\n            dphi = 2. + 0. "
@@ -570,6 +600,10 @@ MUTANTS = [
       "        elif i == 4 - 0:"), None),
 ]
 TWINS = [
+    ("adaptive refinement based on the helper with sorting restored",
+     (_TRI, _RET, _RET.replace("            self,\n",
+                               "            sorted_mesh,\n            "
+                               "sort_t=self.sort_t,\n"))),
     ("H(curl) orientation with the comparison flipped (all cells flip "
      "consistently)",
      (_E + "element_hcurl.py",
